@@ -1042,7 +1042,7 @@ func TestC18(t *testing.T) {
 			if c.Files[fi].IsData {
 				continue
 			}
-			for _, o := range refOptions(m.paths, "", false, c.Files[fi].Path) {
+			for _, o := range refOptions(m.paths, "", "", false, c.Files[fi].Path) {
 				if !o.hasSearch {
 					names = append(names, o.name)
 				}
